@@ -87,7 +87,7 @@ def extra_atoms(tier="thorough"):
 
 
 def rel_atoms():
-    out = []
+    out = [{"var": "platform_release", "op": op, "val": v, "rev": False, "style": 0} for v in M.REL_NONVERSION_LITS for op in ("==", "!=")]
     for v in ["5.4", "5.4.0", "6", "10"]:
         for op in M.CMP_OPS + ["~="]:
             if op == "~=" and "." not in v:
